@@ -85,7 +85,12 @@ class Hier:
                 if not hasattr(A, "register") or A in (object, type(None)):
                     continue
                 try:
-                    A.register(C)
+                    # traits' own decorator for Interfaces / ABCHasTraits (= type(A).register(A, C)); plain ABCs register
+                    if self.kinds[a] in "ib":
+                        from traits.api import provides
+                        provides(A)(C)
+                    else:
+                        A.register(C)
                     self.regs.append((a, c))
                     self.notes.add("abc-register")
                 except RuntimeError:
